@@ -1872,6 +1872,18 @@ class _Tk:
         return [int(self.next()) for _ in range(int(v))]
 
 
+def _qual_arg(tk):
+    k = tk.next()
+    if k == "_":
+        return None
+    if k == "L0":
+        return []
+    if k == "L1":
+        return [("a", ["b"])]
+    n = int(tk.next())
+    return {f"k{i}": (["v"] if tk.next() == "1" else "v") for i in range(n)}
+
+
 def _plain_parent(plen):
     return None if plen is None else Parent(id="p", sequence=Sequence("A" * plen, Alphabet.NT_STRICT, id="p"))
 
@@ -1986,6 +1998,66 @@ def impl_mk(t):
             c = VariantIntervalCollection(vs)
             return f"ok {c.start} {c.end}"
         return guarded(go)
+    if op == "mkvar":
+        vs, ve, alt = int(tk.next()), int(tk.next()), tk.next()[1:]
+
+        def go():
+            v = VariantInterval(vs, ve, alt, "v")
+            return f"ok {v.start} {v.end}"
+        return guarded(go)
+    if op == "mkfeat":
+        st = SYM[tk.next()]
+        ss, es = tk.ints(), tk.ints()
+        q = _qual_arg(tk)
+
+        def go():
+            f = FeatureInterval(ss, es, st, qualifiers=q)
+            return f"ok {f.start} {f.end}"
+        return guarded(go)
+    if op in ("mkgene", "mkfcoll"):
+        import uuid
+        n = int(tk.next())
+        kids = [(int(tk.next()), int(tk.next()), int(tk.next()), tk.next() == "1") for _ in range(n)]
+        q = _qual_arg(tk)
+
+        def go():
+            if op == "mkgene":
+                ch = [TranscriptInterval([a], [b], Strand.PLUS, guid=uuid.UUID(int=g + 1), is_primary_tx=True if pr else None)
+                      for a, b, g, pr in kids]
+                c = GeneInterval(ch, qualifiers=q)
+            else:
+                ch = [FeatureInterval([a], [b], Strand.PLUS, guid=uuid.UUID(int=g + 1), is_primary_feature=True if pr else None)
+                      for a, b, g, pr in kids]
+                c = FeatureIntervalCollection(ch, qualifiers=q)
+            return f"ok {c.start} {c.end}"
+        return guarded(go)
+    if op == "mkannot":
+        import uuid
+        a_s, a_e = tk.opt(int), tk.opt(int)
+        n = int(tk.next())
+        kids = [(int(tk.next()), int(tk.next()), int(tk.next())) for _ in range(n)]
+
+        def go():
+            genes = [GeneInterval([TranscriptInterval([a], [b], Strand.PLUS)], guid=uuid.UUID(int=g + 1)) for a, b, g in kids]
+            c = AnnotationCollection(genes=genes or None, start=a_s, end=a_e)
+            if isinstance(c._location, W._EmptyLocation):
+                return "ok E"
+            return f"ok {c.start} {c.end}"
+        return guarded(go)
+    if op == "mkcodon":
+        txt = tk.next()[1:]
+        return guarded(lambda: "ok " + Codon(txt).value)
+    if op == "fromint":
+        which, v = tk.next(), int(tk.next())
+
+        def go():
+            if which == "strand":
+                return "ok " + RSYM[Strand.from_int(v)]
+            return f"ok {(CDSFrame if which == 'frame' else CDSPhase).from_int(v).value}"
+        return guarded(go)
+    if op == "fromsym":
+        txt = tk.next()[1:]
+        return guarded(lambda: "ok " + RSYM[Strand.from_symbol(txt)])
     if op == "scanwin":
         from harness.impl_loc import Toks, parse_loc
         tk2 = Toks(t[1:])
@@ -2004,7 +2076,9 @@ def impl_mk(t):
     return "err! UnknownOp"
 
 
-MK_OPS = {"mksingle", "mkcompound", "mkparent", "mkseq", "mkcds", "mktx", "mkvarcoll", "scanwin"}
+MK_OPS = {"mksingle", "mkcompound", "mkparent", "mkseq", "mkcds", "mktx", "mkvarcoll", "scanwin",
+          "mkvar", "mkfeat", "mkgene", "mkfcoll", "mkannot", "mkcodon", "fromint", "fromsym"}
+MODEL_OPS = MK_OPS | {"sappend", "pcons"}
 
 
 def cold():
